@@ -1,13 +1,20 @@
 use crate::framework::Cfg;
+pub mod c01_05;
 pub mod c06;
 pub mod c07;
 pub mod c08;
 pub mod c12;
 pub mod c16;
 pub mod c20;
+pub mod minerhist;
 
 pub fn dispatch(cfg: &Cfg) -> i32 {
     match cfg.prop.as_str() {
+        "C01" => c01_05::run_c01(cfg),
+        "C02" => c01_05::run_c02(cfg),
+        "C03" => c01_05::run_c03(cfg),
+        "C04" => c01_05::run_c04(cfg),
+        "C05" => c01_05::run_c05(cfg),
         "C06" => c06::run(cfg),
         "C07" => c07::run(cfg),
         "C08" => c08::run(cfg),
